@@ -320,15 +320,17 @@ def replaceFirst (a b : Nat) : List Nat → List Nat
   | [] => []
   | x :: l => if x = a then b :: l else x :: replaceFirst a b l
 
+/-- one iteration of `for item in candidate_iter`: replace the earliest kept item if the new
+one is later -/
+def latestStep (g : Graph) (kept : List Nat) (item : Nat) : List Nat :=
+  match earliest g kept with
+  | some m => if itemLt g m item then replaceFirst m item kept else kept
+  | none => kept
+
 /-- `take_latest_revset` -/
 def takeLatest (g : Graph) (cands : List Nat) (count : Nat) : List Nat :=
   if count = 0 then [] else
-  let kept := (cands.drop count).foldl
-    (fun kept item => match earliest g kept with
-      | some m => if itemLt g m item then replaceFirst m item kept else kept
-      | none => kept)
-    (cands.take count)
-  sortDedupDesc kept
+  sortDedupDesc ((cands.drop count).foldl (latestStep g) (cands.take count))
 
 /-! ## `heads_from_range_and_filter` -/
 
